@@ -74,7 +74,16 @@ def io1(ctx, prog, cfg):
                 src_ok = False
                 if ok:
                     a = f.call_args(b)[0]
-                    src_ok = any(isinstance(s, tuple) and s and s[0] == "call" and re.fullmatch(SR, s[1] if isinstance(s[1], str) else "") for s in mir.walk(a))
+                    def from_reader(e_):
+                        return any(isinstance(s, tuple) and s and s[0] == "call" and re.fullmatch(SR, s[1] if isinstance(s[1], str) else "") for s in mir.walk(e_))
+                    src_ok = from_reader(a)
+                    if not src_ok:
+                        # the residual is a joined value: every `Err(..)` the function builds must carry an error of the slice reader
+                        # (directly, or one that was itself joined from such)
+                        errs = [f.deep_simplify(f.rvalue_expr(st_["rv"], b_, i_)) for b_, i_, st_, it_ in f.positions(False)
+                                if not it_ and st_["k"] == "assign" and st_["rv"]["k"] == "aggregate" and st_["rv"].get("adt") == "core::result::Result" and st_["rv"].get("variant") == "Err"]
+                        src_ok = bool(errs) and all(from_reader(e_) or any(isinstance(s, tuple) and s and s[0] == "phi" for s in mir.walk(e_)) for e_ in errs) \
+                            and any(from_reader(e_) for e_ in errs)
                 ctx.check(ok and src_ok, "IO1", short, "error propagation only from the infallible slice reader", short_loc(f, b),
                           "`%s` returns the result of `%s`: an error can be produced or propagated from a fallible source" % (short, p),
                           "`?` on <&[u8] as Read>::read (infallible)", cfg)
@@ -95,9 +104,9 @@ def io2(ctx, prog, cfg):
 def io3(ctx, prog, cfg):
     front = r"CircularBuffer::as_slices\(self\)\.0"
     back = r"CircularBuffer::as_slices\(self\)\.1"
-    r1 = r"<Result<T, E> as Try>::branch\(%s\(&\{%s\}, dst\)\) as Continue\.0" % (SR, front)
+    r1 = r"%s\(&\{%s\}, dst\) as Ok\.0" % (SR, front)
     dst2 = r"<\[T\] as IndexMut<I>>::index_mut\(dst, RangeFrom::RangeFrom\{start: %s\}\)" % r1
-    r2 = r"<Result<T, E> as Try>::branch\(%s\(&\{%s\}, %s\)\) as Continue\.0" % (SR, back, dst2)
+    r2 = r"%s\(&\{%s\}, %s\) as Ok\.0" % (SR, back, dst2)
     shapes.must_match(ctx, "IO3", prog, RD + "read",
                       [r"call CircularBuffer::as_slices\(self\)",
                        r"call %s\(&\{%s\}, dst\)" % (SR, front),
@@ -158,9 +167,9 @@ def io3(ctx, prog, cfg):
                          for db, di, st_, it_ in f.positions(False) if not it_ and st_["k"] == "assign" and st_["place"]["local"] == n_ and not st_["place"]["proj"]]
             for (sb, e) in sites:
                 which = e[2] if isinstance(e, tuple) and e[0] == "field" and isinstance(e[1], tuple) and e[1][:2] == ("call", "CircularBuffer::as_slices") else None
-                facts = G.facts_at(sb)
-                empty_front = any(a[0] == "le" and a[2] == guards.ZERO and a[3] == 0 and isinstance(a[1], tuple) and a[1][0] == "pcall" for a in facts)
-                nonempty_front = any(a[0] == "le" and a[1] == guards.ZERO and a[3] == -1 and isinstance(a[2], tuple) and a[2][0] == "pcall" for a in facts)
+                flen = ("pcall", "<[T]>::len", (("field", ("call", "CircularBuffer::as_slices", (("param", 1),), asl[0][0] if asl else 0), "0"),))
+                Zf = G.closure(sb, extra_terms=[flen])
+                empty_front, nonempty_front = Zf.eq0(flen), Zf.gt0(flen)
                 ok = (which == "0" and nonempty_front) or (which == "1" and empty_front)
                 seen.add(which)
                 ctx.check(ok, "IO3", f.short, "Ok(%s) under front %s" % ("front" if which == "0" else "back", "non-empty" if which == "0" else "empty"), short_loc(f, sb),
@@ -173,5 +182,5 @@ def io3(ctx, prog, cfg):
 
 def io4(ctx, prog, cfg):
     shapes.must_match(ctx, "IO4", prog, BR + "consume",
-                      [r"call CircularBuffer::drain\(self, RangeTo::RangeTo\{end: (core::cmp::min|core::cmp::Ord::min|<usize>::min)\(\(\*self\)\.size, amt\)\}\)", r"return const"], cfg,
+                      [r"call CircularBuffer::drain\(self, RangeTo::RangeTo\{end: (usize::min|core::cmp::min|core::cmp::Ord::min|<usize>::min)\(\(\*self\)\.size, amt\)\}\)", r"return const"], cfg,
                       "drain(..min(amt, len))", "`consume` is not `self.drain(..min(amt, self.len()))`: it removes a different number of bytes or can hit the range panic")
